@@ -14,4 +14,10 @@ PROPS = {
    assumptions=["Go int arithmetic in encodeGroup/decodeGroup does not overflow (values below 2^10)",
                 "b1t6 decoders are specified only on trits in {-1,0,1} / trytes in [9A-Z] (documented as undefined otherwise)"],
    trusted_base=["iota.go trinary LUT helpers modelled by their tables (tables regenerated and compared)"]),
+ "C10": P("C10",
+   rule="ops: path.parse (ParsePath and UnmarshalText must agree), path.print (String, MarshalText, ParsePath of it). Enumerated: ALL strings of "
+        "length <= 5 (quick) / 6 (thorough) over the alphabet {0,1,7,9,8,m,/,H,',x}; 2^31 boundary values with 0..20 leading zeros, all markers, "
+        "with/without m/; other-base look-alikes; random paths of length 0..40 for the round trip; random mutations of printed paths",
+   assumptions=["regexp leftmost-first semantics of `(\\d+)([H']?)` and strconv.ParseUint(s, 10, 31) modelled by their documented meaning (validated exhaustively on short strings)"],
+   trusted_base=["Go regexp, strconv, strings, fmt modelled, not verified"]),
 }
